@@ -206,7 +206,7 @@ namespace {
                 if (t.ctl == C_SELF_JOIN)
                 {
                     // wait until the handle has been stored, then try to join ourselves
-                    while (!t.released) pika::this_thread::yield();
+                    while (!t.released) poll_pause(false);
                     expect_error((int) pika::error::thread_resource_error, "C13.self_join", "joining oneself",
                         [&] { t.th.join(); });
                     t.self_join_checked = true;
